@@ -243,6 +243,45 @@ def rule_active_count(ctx):
     ctx.covered('R14.5', 'active-count adjustments on removal are guarded by index < active count', n, floor=3, samples=samples)
 
 
+def rule_active_count_every_path(ctx):
+    """R14.9: on every path of reb_simulation_remove_particle that takes a particle out of the array (r->N--), the active
+    count is adjusted in the same statement list (`if (index < r->N_active) r->N_active--`). A path that only moves the last
+    particle into the hole leaves N_active too large: a test particle is promoted into an active slot and, after further
+    removals, N_active exceeds N and the force loops run over a slot beyond the particles."""
+    tu = cfront.load_tu('particle.c')
+    fn = tu.func('reb_simulation_remove_particle')
+    n = 0
+    samples = []
+
+    def lists(node):
+        if node.get('kind') == 'CompoundStmt':
+            yield node
+        for c in node.get('inner', []) or []:
+            if isinstance(c, dict):
+                yield from lists(c)
+    for comp in lists(cfront.body(fn)):
+        items = comp.get('inner', [])
+        dec_N = [st for st in items if strip(st).get('kind') == 'UnaryOperator' and strip(st).get('opcode') == '--' and render(strip(st)['inner'][0]).replace(' ', '') == 'r.N']
+        if not dec_N:
+            continue
+        n += 1
+        adj = False
+        for st in items:
+            if st.get('kind') == 'IfStmt' and 'N_active' in render(st['inner'][0]):
+                if any(e.get('kind') == 'UnaryOperator' and e.get('opcode') == '--' and render(e['inner'][0]).replace(' ', '') == 'r.N_active' for e in walk(st['inner'][1])):
+                    adj = True
+        where = 'src/particle.c:%s reb_simulation_remove_particle' % line_of(dec_N[0])
+        moved = [render(strip(st)) for st in items if is_assign(strip(st)) and 'particles[index]' in render(strip(st)['inner'][0]).replace(' ', '')]
+        kind = 'unsorted' if any('particles[r.N]' in m_.replace(' ', '') for m_ in moved) else 'sorted'
+        if not adj:
+            ctx.report('R14.9', 'remove:%s:N_active' % kind, where,
+                       'this removal path (%s) decrements r->N but never adjusts r->N_active: removing an active particle leaves the active count too large (a test particle is promoted into the hole, later N_active > N)' % kind)
+        else:
+            samples.append('%s: %s path adjusts N_active' % (where, kind))
+    anchor(n >= 2, 'removal paths decrementing r->N in reb_simulation_remove_particle')
+    ctx.covered('R14.9', 'every removal path that shrinks the particle array adjusts the active count', n, floor=2, samples=samples)
+
+
 def rule_python_none(ctx):
     """R14.6: optional selector arguments (default None) that may legitimately be 0 are tested with `is (not) None`,
     never by truthiness."""
@@ -352,6 +391,7 @@ def rule_sort_order(ctx):
 
 
 def run(ctx):
+    rule_active_count_every_path(ctx)
     rule_sort_order(ctx)
     capacity.rule_release_resets_capacity(ctx, 'R14.8')
     rule_failure_atomicity(ctx)
